@@ -627,6 +627,13 @@ def conflict_case(rnd, name, adversarial=False):
                 t = "*" + t
             return t
         base = q + "." + r.choice(["T", "T", "N", "S", "F", "A", "I"])
+        if r.random() < 0.2 and len(chosen) > 1:
+            # one type mentioning two of the packages: they reach the registry from a single AddVar
+            j = r.choice([k for k in range(len(chosen)) if k != i])
+            if chosen[j][0] not in STD_TYPES:
+                other = "p%d.%s" % (j, r.choice(["T", "N", "A"]))
+                return r.choice(["map[%s]%s" % ("p%d.N" % j, base), "func(%s) %s" % (other, base),
+                                 "struct{ A %s; B %s }" % (base, other), "map[string]func(%s) %s" % (base, other)])
         return r.choice(["%s", "%s", "*%s", "[]%s", "map[string]%s", "chan %s", "func(%s) error"]) % base
 
     hub = ["package hub", "", "import ("]
@@ -777,7 +784,7 @@ def configs_for(rnd, case, k):
         if ifs and rnd.random() < 0.05:
             k = rnd.randrange(len(args))
             if ":" not in args[k]:
-                args[k] = args[k] + ":" + rnd.choice(["ctx", "key", "val", "name", "req", "opts", "handler", "in", "out"])
+                args[k] = args[k] + ":" + rnd.choice(["key", "val", "name", "req", "opts", "handler", "in", "out"])
         # an argument moq must reject, at a random position: unknown name, or a non-interface
         if rnd.random() < 0.05:
             args.insert(rnd.randrange(len(args) + 1), rnd.choice(["Nope", "T", "N", "nope:Fake"]))
